@@ -3,7 +3,7 @@
 (* C18, Mode H.  Replays, per output file and per script, the entries of   *)
 (* the real debug-info JSON as events against the instruction sizes the    *)
 (* driver parsed from the written BINARY:                                  *)
-(*   file    a new compilation                                             *)
+(*   file    {id}                  a new compilation (history boundary)    *)
 (*   const   {name, value, e}      debug-info const + its source expression*)
 (*   script  {sizes, src}          facts: instruction sizes from the binary*)
 (*                                 (terminal instruction excluded), source *)
@@ -14,25 +14,31 @@
 (*   end     {offset}              debug-info end-offset                   *)
 (*   local   {reg, regs}           debug-info local + register operands of *)
 (*                                 its witness instructions (binary)       *)
-(* The trace is deterministic: exactly one action can match each line.     *)
-(* Acceptance = the whole file is consumed, i.e. the invariant NotDone is  *)
-(* VIOLATED.  If TLC finishes without violating it, the trace was rejected *)
-(* and the postcondition prints the index of the last accepted line.       *)
-(* Run with one worker (the parsed trace is parked in a TLC register).     *)
+(* Every compilation is one history; the trace file holds many of them.    *)
+(* Each history is deterministic: exactly one action can match each line   *)
+(* (variable l = next line).  A history is ACCEPTED when all of its lines  *)
+(* have been explained (l reaches the next `file` line or the end) between *)
+(* scripts.  Accepted history ids are collected in TLC register 2, the     *)
+(* last explained line of every history in register 1; the postcondition   *)
+(* prints both.  A history that is not in the accepted set was rejected at *)
+(* the line after its last explained one.  Run with ONE worker (registers).*)
 (***************************************************************************)
 EXTENDS DebugLayout, Json, IOUtils
 
 ASSUME TLCSet(41, ndJsonDeserialize(IOEnv.TRACE))
-ASSUME TLCSet(1, 0)
+ASSUME TLCSet(1, <<>>)
+ASSUME TLCSet(2, {})
 Rec == TLCGet(41)
 
-VARIABLE l
-tvars == <<sizes, src, off, idx, phase, cenv, l>>
+VARIABLES l,        \* next line of the trace
+          cur,      \* id of the history being replayed
+          status    \* "running" | "accepted"
+tvars == <<sizes, src, off, idx, phase, cenv, l, cur, status>>
 
 ToSet(s) == {s[i] : i \in 1..Len(s)}
-IsEvent(e) == l <= Len(Rec) /\ Rec[l].ev = e /\ l' = l + 1
+IsFileLine(i) == i <= Len(Rec) /\ Rec[i].ev = "file"
+IsEvent(e) == status = "running" /\ l <= Len(Rec) /\ Rec[l].ev = e /\ l' = l + 1 /\ UNCHANGED <<cur, status>>
 
-TFile   == IsEvent("file")   /\ NewFile
 TConst  == IsEvent("const")  /\ Const(Rec[l].name, Rec[l].value, Rec[l].e)
 TScript == IsEvent("script") /\ BeginScript(Rec[l].sizes, Rec[l].src)
 TInstr  == IsEvent("instr")  /\ PlaceInstr(Rec[l].offset)
@@ -40,13 +46,23 @@ TLabel  == IsEvent("label")  /\ PlaceLabel(Rec[l].offset, Rec[l].time, Rec[l].na
                                            ToSet(Rec[l].before), ToSet(Rec[l].after))
 TEnd    == IsEvent("end")    /\ End(Rec[l].offset)
 TLocal  == IsEvent("local")  /\ Local(Rec[l].reg, ToSet(Rec[l].regs))
+\* the whole history was consumed, and not in the middle of a script
+TAccept ==
+    /\ status = "running"
+    /\ (l > Len(Rec) \/ IsFileLine(l))
+    /\ phase \in {"idle", "ended"}
+    /\ status' = "accepted"
+    /\ TLCSet(2, TLCGet(2) \cup {cur})
+    /\ UNCHANGED <<sizes, src, off, idx, phase, cenv, l, cur>>
 
-Init == l = 1 /\ DLInit
-\* register 1 remembers the last line that was explained (read by the postcondition when a trace is rejected)
-Next == (TFile \/ TConst \/ TScript \/ TInstr \/ TLabel \/ TEnd \/ TLocal) /\ TLCSet(1, l)
+\* one history per `file` line (the line itself is consumed here: a new file starts with no constants, no script)
+Init == \E i \in {j \in 1..Len(Rec) : IsFileLine(j)} :
+            /\ l = i + 1 /\ cur = Rec[i].id /\ status = "running"
+            /\ DLInit
+Step == TConst \/ TScript \/ TInstr \/ TLabel \/ TEnd \/ TLocal
+Next == (Step /\ TLCSet(1, (cur :> l) @@ TLCGet(1))) \/ TAccept
 Spec == Init /\ [][Next]_tvars
 
-NotDone == l <= Len(Rec)            \* its violation = the whole trace was explained by the specification
 Inv == TypeOK /\ OffsetIsPrefixSum
-Post == PrintT(<<"ACCEPTED_UPTO", TLCGet(1), Len(Rec)>>)
+Post == PrintT(<<"ACCEPTED", TLCGet(2)>>) /\ PrintT(<<"PROGRESS", TLCGet(1)>>)
 ============================================================================
